@@ -1,12 +1,12 @@
 #!/bin/sh
 # usage: tools/seeded_both.sh <src-dir> <seed-id> <prop>: first against the baseline checkout (/tmp/verif-base, the commit
 # before any strengthening prompted by this wave), then against the working tree; records both in meta.json
-src=$1; id=$2; prop=$3
+src=$1; id=$2; prop=$3; wave=${4:-2}
 base=$(cd /tmp/verif-base && python3 tools/seeded.py $src $id $prop 2>&1 | tail -2)
 echo "BASE: $base"
 cur=$(python3 /verif/tools/seeded.py $src $id $prop 2>&1 | tail -2)
 echo "CUR:  $cur"
-python3 - "$id" "$base" <<'PY'
+python3 - "$id" "$base" "$wave" <<'PY'
 import json,sys
 p=f'/verif/seeded/{sys.argv[1]}/meta.json'
 try:
@@ -14,8 +14,8 @@ try:
 except Exception as e:
     print('no meta', e); sys.exit(0)
 m['first_result_on_baseline_commit']='detected' if 'detected_by_owner = True' in sys.argv[2] else 'missed'
-m['wave']=2
-m['author']='independent sub-agent given only the property text, a scratch worktree and the list of first-round ideas to avoid'
+m['wave']=int(sys.argv[3]) if len(sys.argv)>3 else 2
+m['author']='independent sub-agent given only the property text, a scratch worktree and the one-line summaries of earlier rounds' ideas to avoid'
 json.dump(m,open(p,'w'),indent=1)
 print(sys.argv[1], m['first_result_on_baseline_commit'], '->', 'detected' if m.get('detected_by_owner') else 'MISSED')
 PY
